@@ -265,7 +265,7 @@ def obligations(tier, win=False, prefix='agg'):
     for sp in ('col', 'ext'):
         add('h_agg_int', 3, 'spec=%s,n=3' % sp, spec=sp)
     add('h_agg_int', 3, 'K=2,spec=ext,n=3', K=2, spec='ext', nones=False, fns=['sum'])
-    for kt in ('str', 'date'):
+    for kt in ('str', 'date', 'hashy'):
         add('h_agg_int', 3, 'ktype=%s,n=3' % kt, ktype=kt)
     for seed in (1, 2):
         add('h_agg_int', 3, 'ktype=str,n=3,seed=%d' % seed, ktype='str', hashseed=seed)
